@@ -512,11 +512,9 @@ Definition run_iter_num (inp : list Z) : list Z :=
   | [] => bad_input
   end.
 (* play on a scripted clock; all times are integers in units of 2^-20 s *)
-Definition qof (z : Z) : Q := z # 1048576.
-Definition zof (q : Q) : Z := Qnum (Qred (q * (1048576 # 1))).
 Fixpoint in_pt (n : nat) (l : list Z) : list ptick * list Z :=
   match n, l with
-  | S k, d :: mt :: r => let '(ms, r') := in_pt k r in ({| q_delta := qof d; q_meta := negb (mt =? 0) |} :: ms, r')
+  | S k, d :: mt :: r => let '(ms, r') := in_pt k r in ({| q_delta := d; q_meta := negb (mt =? 0) |} :: ms, r')
   | _, _ => ([], l)
   end.
 Definition run_play (inp : list Z) : list Z :=
@@ -527,8 +525,8 @@ Definition run_play (inp : list Z) : list Z :=
       | Some (eps, r2) =>
           match in_list r2 with
           | Some (holds, []) =>
-              let ys := play (negb (mm =? 0)) (qof start) (qof start) 0 0 ms (map qof eps) (map qof holds) in
-              zlen ys :: flat_map (fun y => [Z.of_nat (fst y); zof (snd y)]) ys
+              let ys := play (negb (mm =? 0)) start start 0 0 ms eps holds in
+              zlen ys :: flat_map (fun y => [Z.of_nat (fst y); snd y]) ys
           | _ => bad_input
           end
       | None => bad_input
